@@ -2,8 +2,9 @@
 # runs every seeded change under /verif/seeded through the quick check of the property it breaks; prints one line per seed
 cd /verif
 for d in seeded/*/; do
-  id=$(basename "$d"); prop=$(python3 -c "import json;print(json.load(open('$d/meta.json'))['breaks_property'])")
+  id=$(basename "$d"); prop=$(python3 -c "import json;m=json.load(open('$d/meta.json'));print(m.get('check_property', m['breaks_property']))")
   if [ -n "${1:-}" ] && [[ "$id" != $1* ]]; then continue; fi
+  if grep -q '"status": "obsolete"' "$d/meta.json"; then echo "$id $prop obsolete (see meta.json)"; continue; fi
   out=$(tools/try_patch.sh "$d/patch.diff" "$prop" 2>&1)
   rc=$(echo "$out" | grep -oE "exit=[0-9]+" | head -1)
   echo "$id $prop $rc $(echo "$out" | grep -E '^  [A-Za-z]' | head -1 | cut -c1-160)"
